@@ -124,6 +124,19 @@ V({
     "trusted": ["chalk-ir Substitution/Constraints (abstract in V1)"],
 })
 
+# --------------------------------------------------------------------------- V7
+V({
+    "id": "V7",
+    "title": "infer_snapshot: InferenceTable::{snapshot, rollback_to, commit, relate}, Unifier::new",
+    "template": "v7_infer_snapshot.rs",
+    "assumptions": [
+        "V7: assumed contract of the ena dependency: snapshot() pushes the current contents on a stack of open snapshots, rollback_to(s) restores the contents recorded by the innermost snapshot and pops it, commit(s) pops it and keeps the contents",
+        "V7: Unifier::relate (the whole unification algorithm) is havoc: it may change the table arbitrarily but leaves ena's stack of open snapshots balanced",
+        "V7: Vec<EnaVariable>::clone returns an equal vector (vstd Vec::clone spec + EnaVariable: Copy)",
+    ],
+    "trusted": ["ena::unify::InPlaceUnificationTable snapshot/rollback_to/commit (dependency, assumed contract)"],
+})
+
 # ===========================================================================
 GLOBAL_ASSUMPTIONS = [
     "soundness of rustc+Kani's model of core/alloc and of CBMC; soundness of Verus and Z3",
